@@ -212,6 +212,8 @@ def finding_of(real: Real, source: str, mapping: dict[str, str], base: dict[str,
 
 def corpus_cases() -> list[dict[str, Any]]:
 	out = []
+	if os.environ.get('C08_NO_CORPUS') == '1':   # generator-only runs (used to confirm that seeded mutations are found without the corpus)
+		return out
 	if os.path.isdir(CORPUS):
 		for fn in sorted(os.listdir(CORPUS)):
 			if fn.endswith('.json'):
@@ -992,7 +994,8 @@ def search_sibling_scopes(ctx: Ctx) -> SearchResult:
 	for names in name_sets[:ctx.scale(2, 3)]:
 		outcomes: dict[int, tuple[str, str]] = {}
 		ids: dict[int, list[int]] = {}
-		for pad in range(0, ctx.scale(24, 120)):
+		corpus_pads = [int(rec['pad']) for rec in corpus_cases() if rec.get('kind') == 'sibling' and tuple(rec.get('names', [])) == names]
+		for pad in sorted(set(range(0, ctx.scale(24, 120))) | set(corpus_pads)):
 			src = two_loops(pad, names)
 			res.cases += 1
 			try:
